@@ -20,13 +20,17 @@ MUTANTS = [
     M("empty-member-dropped", A, "        # Check file size before processing\n", "        if not file_data:\n            return\n        # Check file size before processing\n", "C10-STEP"),
     M("extract-only-when-extension", A, "        for content in extractor(file_bytes, path=full_path):\n            yield content\n", "        if \".\" in basename:\n            for content in extractor(file_bytes, path=full_path):\n                yield content\n", "C10-STEP"),
     M("uint32-big-endian", S, 'struct.unpack("<I"', 'struct.unpack(">I"', "C10-ENDIAN"),
-    M("empty-stream-consumes-size", S, "            is_dir = empty_streams[i] or (attributes[i] & 0x10) != 0\n", "            is_dir = (attributes[i] & 0x10) != 0\n", "C10-FOLDER"),
+    M("empty-stream-consumes-size", S, "            if is_dir or empty_streams[i]:\n", "            if is_dir:\n", "C10-FOLDER"),
+    M("kemptyfile-skipped-again", S, "                marks = iter(self._read_boolean_vector(sum(empty_streams)))\n                empty_files = [\n                    is_empty and next(marks, False) for is_empty in empty_streams\n                ]\n", "                pass\n", "C10-KIND"),
+    M("kemptyfile-polarity", S, "            is_dir = (empty_streams[i] and not empty_files[i]) or (", "            is_dir = (empty_streams[i] and empty_files[i]) or (", "C10-KIND"),
+    M("empty-files-not-created", S, "        for file_idx in self._empty_file_indexes:\n", "        for file_idx in []:\n", "C10-KIND"),
+    M("empty-file-takes-folder-slot", S, "                file_info.is_directory\n                or empty_streams[i]\n                or folder_idx >= len(self._folders)\n", "                file_info.is_directory\n                or folder_idx >= len(self._folders)\n", "C10-FOLDER"),
 ]
 TWINS = [
     T("dict-size-equivalent-form", S, "dict_size = (2 | (prop_byte & 1)) << (prop_byte // 2 + 11)", "dict_size = (2 + (prop_byte & 1)) * (1 << (prop_byte // 2 + 11))"),
     T("basename-inline", A, "                filename = member.name\n                basename = os.path.basename(filename)\n", "                filename = member.name\n                basename = os.path.basename(filename)\n                logger.debug(\"member %s\", filename)\n"),
     T("uint8-without-prefix", S, 'struct.unpack("<B"', 'struct.unpack("B"'),
-    T("is-dir-split", S, "            is_dir = empty_streams[i] or (attributes[i] & 0x10) != 0\n", "            has_dir_attr = (attributes[i] & 0x10) != 0\n            is_dir = empty_streams[i] or has_dir_attr\n"),
+    T("is-dir-split", S, "            is_dir = (empty_streams[i] and not empty_files[i]) or (\n                attributes[i] & 0x10\n            ) != 0\n", "            has_dir_attr = (attributes[i] & 0x10) != 0\n            no_data_dir = empty_streams[i] and not empty_files[i]\n            is_dir = no_data_dir or has_dir_attr\n"),
 ]
 
 # --- seeded changes kept under /verif/seeded (sub-agents saw only the property text); each must be reported by the named rule
